@@ -6,6 +6,10 @@
 //!
 //! prints one JSON line: fired monitors, covers, assumption/tape status, panic.
 #[cfg(all(futures_buffered_verif, not(kani)))]
+#[global_allocator]
+static GLOBAL: fbv::gh::counting_alloc::Counting = fbv::gh::counting_alloc::Counting;
+
+#[cfg(all(futures_buffered_verif, not(kani)))]
 fn main() {
     use fbv::nd::tape;
     use std::io::Read;
